@@ -230,6 +230,24 @@ def task(W, payload):
                 N = max(1.0, float(np.abs(o0).max()))
                 tol = 1e-9 * N if solver != "odeint" else 1e-4 * N   # adaptive: both models solved at the PRECISE tolerance (1.4e-8)
                 if np.abs(agg - o0).max() > tol:
+                    # the solvers evaluate the rates at STAGE states between the rows; when a stage state of the stratified model has a negative
+                    # entry (an absolute flow or an importation-fed loss drawing on a stratum that holds nobody, e.g. a split of 0) the rates are
+                    # those of the clipped state and the aggregate cannot match: outside the quantifier like negative rows (ASSUMPTIONS)
+                    try:
+                        import jax.numpy as jnp
+                        pf_ = {k: float(Fr(v)) for k, v in params.items()}
+                        rn_ = J1.model.get_runner(pf_, jit=False)
+                        tt_ = [float(t) for t in J1.model.times]
+                        hh_ = tt_[1] - tt_[0]
+                        stage_neg = False
+                        for i_ in range(len(tt_) - 1):
+                            k1_ = np.asarray(rn_.impl_dict["one_step"](pf_, tt_[i_], jnp.array(o1[i_])).comp_rates, dtype=float)
+                            if (o1[i_] + hh_ * k1_).min() < -1e-12 or (o1[i_] + hh_ / 2 * k1_).min() < -1e-12:
+                                stage_neg = True; break
+                    except BaseException:
+                        stage_neg = False
+                    if stage_neg:
+                        bump(out, "negative_stage_states_skipped"); continue
                     fail(out, f"aggregated trajectory of the stratified model differs from the unstratified model's ({solver})", "c03", payload,
                          worst=float(np.abs(agg - o0).max()), tol=tol, program=ops, extra=new, params=params)
                     continue
